@@ -50,6 +50,7 @@ def run(ctx):
     n = 3000 if ctx.thorough else 300
     exact, mutants = common.gen_cases(ctx, ['sct', 'sct_list'], n, corrupt_limit=10)
     common.run_exact(ctx, exact)
+    common.run_exact(ctx, common.long_tails(ctx, exact))
     common.run_differential(ctx, mutants, common.proj_value)
     # all truncations (named by the property's quantifier): never a value; asking for more input vs rejecting as the model does
     trunc, per_fam = [], {}
@@ -67,7 +68,7 @@ def run(ctx):
     sw = []
     for v in pairs:
         h, g = v >> 8, v & 255
-        sl = (v * 7) % 5
+        sl = v - 2 if 2 <= v <= 2047 + 2 and v % 3 == 0 or 1792 <= v <= 2047 else (v * 7) % 5      # v-2: also a valid legacy-form signature
         tail = bytes(32) + (v * 2654435761 % 2 ** 64).to_bytes(8, 'big') + b'\0\0' + bytes([h, g]) + sl.to_bytes(2, 'big') + b'\x99' * sl
         entry = (1 + len(tail)).to_bytes(2, 'big') + b'\0' + tail
         val = '(SCTE 0 %s %d +0 (DSig (some (P %d %d)) %s))' % (core.span(3, 32), v * 2654435761 % 2 ** 64, h, g, core.span(3 + 32 + 8 + 2 + 2 + 2, sl))
